@@ -14,7 +14,14 @@ use crate::{
     sha256, shims, sim,
 };
 
-pub const TESTDATA: &str = "/repo/resources/testdata";
+/// The corpus: `resources/testdata` of the repository under test (`VERIF_REPO`, default /repo)
+pub fn testdata() -> &'static Path {
+    static ROOT: std::sync::OnceLock<PathBuf> = std::sync::OnceLock::new();
+    ROOT.get_or_init(|| {
+        let repo = std::env::var("VERIF_REPO").unwrap_or_else(|_| "/repo".to_string());
+        Path::new(&repo).join("resources").join("testdata")
+    })
+}
 pub const MAX_STEPS: usize = 5_000_000;
 
 /// Where sources with stored-byte faults are read from (a private, mutated copy of the corpus)
@@ -150,7 +157,7 @@ pub fn layout(plan: &Plan, sandbox: &Path) -> Layout {
     } else if plan.faults.iter().any(|f| f.kind.starts_with("src-")) {
         TREE_ROOT.get().expect("a private tree for stored-byte faults").join(&plan.source)
     } else {
-        Path::new(TESTDATA).join(&plan.source)
+        testdata().join(&plan.source)
     };
     Layout { source, build_dir, out_file }
 }
